@@ -8,7 +8,7 @@ from ..values import SymBytes, SymInt, SymRat, Base, toint, tobool
 
 I = z3.Int
 
-FMT_QUICK = [(1, 1), (2, 1), (2, 2), (4, 3)]
+FMT_QUICK = [(1, 1), (2, 2), (2, 1), (4, 3)]      # a multichannel format second, so that every [:2] selection has one
 FMT_THOROUGH = [(sw, ch) for sw in (1, 2, 4) for ch in (1, 2, 3)]
 RATES_QUICK = [10, 16000]
 RATES_THOROUGH = [1, 10, 8000, 16000, 44100]
